@@ -122,34 +122,16 @@ func HarnessC07_Amf0Linear() {
 		}
 		return b
 	}
-	reps := vScale(3)
 	cost := func(n int) int {
 		data := build(n)
-		best := -1
-		for r := 0; r < reps; r++ {
-			c0 := vCost()
+		return vMeasure(func() {
 			a, err := Discovery(data)
 			if err == nil {
 				err = a.UnmarshalBinary(data)
 			}
-			c := vCost() - c0
 			vAssert(err == nil, "a well-formed encoding decodes")
-			if best < 0 || c < best {
-				best = c
-			}
-		}
-		return best
+		})
 	}
-	base := 16
-	if vScale(2) == 2 {
-		// native replay: grow the size until one decode takes 4 ms (or the input reaches ~64 KiB)
-		base = 512
-		for base < 8192 && cost(base) < 4000000 {
-			base *= 2
-		}
-	}
-	c1, c2, c3 := cost(base), cost(2*base), cost(4*base)
-	d1, d2 := c2-c1, c3-c2
-	vAssertNative(d2*10 <= d1*25, func() bool { return c3 <= 9*c1 }, "decoding cost grows no faster than linearly with the input length (cost(4n)-cost(2n) <= 2.5 (cost(2n)-cost(n)))")
+	vLinear(cost, 32, 512, 8192, "decoding cost grows no faster than linearly with the input length (cost(4n)-cost(2n) <= 2.5 (cost(2n)-cost(n)))")
 	vReach("c07-amf0-linear")
 }
